@@ -337,6 +337,80 @@ def add_face_siblings(rep, prog):
         rep.violation("C01.add-face-siblings", prog, df, None, "delete_face looks up the wrong edges", "cell::delete_face must remove the face from the edges (n1,n2),(n2,n3),(n3,n1); found %s" % [sorted(x for x in p_ if x is not None) for p_ in pairs])
 
 
+def _closes_at_end(t):
+    d = 0
+    for i, ch in enumerate(t):
+        d += ch == "("
+        d -= ch == ")"
+        if d == 0:
+            return i == len(t) - 1
+    return False
+
+
+def _relabel_on_every_compaction(rep, prog, fn, fi):
+    """The renumbering (set_local_id over the list, update_node_ids over the faces) runs whenever remove_index(list, queue) ran.
+    A guard that lets a path skip it is accepted only when it is proven, by linear integer arithmetic on the sizes taken before
+    the compaction, to state 'every free slot lies behind the elements that stay' (sorted queue, lowest free slot >= N - K):
+    then remove_index only truncates the list and no element moves.  A guard that provably admits a free slot below N - K is a
+    violation; any other guard is not decided."""
+    import sympy as sp
+    from ..model import facts_at
+    for lst, queue, setter in (("face_lst_", "free_face_queue_", "face::set_local_id"), ("node_lst_", "free_node_queue_", "node::set_local_id")):
+        rms = [n for n in walk(fn["body"]) if n.get("k") == "CallExpr" and n.get("callee") == "remove_index" and lst in render(call_args(n)[0])]
+        sets = [n for n in walk(fn["body"]) if is_call(n) and n.get("callee") == setter]
+        if not rms or not sets:
+            continue        # reported by the renumbering rule above
+        rm = rms[0]
+        base = {(render(e).replace(" ", ""), pol) for e, pol in facts_at(fn, fi, rm)}
+        sites = [(sets[0], "the renumbering of " + lst)]
+        if lst == "node_lst_":
+            sites += [(n, "the remapping of the node ids of the faces") for n in walk(fn["body"]) if (n.get("k") == "CXXDependentScopeMemberExpr" and n.get("member") == "update_node_ids") or (is_call(n) and n.get("callee") == "face::update_node_ids")][:1]
+        for site, what in sites:
+            loop = site
+            for p_, _s, _c in fi.ancestors(site):
+                if p_.get("k") in ("ForStmt", "CXXForRangeStmt", "WhileStmt") and lst in render(p_.get("cond") or p_.get("range") or {}):
+                    loop = p_
+                if p_.get("k") == "LambdaExpr":
+                    loop = p_
+            extra = [(e, pol) for e, pol in facts_at(fn, fi, loop) if (render(e).replace(" ", ""), pol) not in base]
+            if not extra:
+                rep.ok("C01.rebase", prog, fn, site, "%s runs on every path on which remove_index(%s, %s) ran" % (what, lst, queue))
+                continue
+            sorted_before = any(n.get("k") == "CallExpr" and n.get("callee", "").split("::")[-1] == "sort" and queue in render(n) and fi.order[id(n)] < fi.order[id(rm)] for n in walk(fn["body"]))
+            for e, pol in extra:
+                # the locals the guard is made of must have been evaluated before the compaction (sizes of before)
+                rm_g = {id(c_) for c_, _p in fi.guards(rm)}
+                late = [y for c_, _p in fi.guards(loop) if id(c_) not in rm_g for y in walk(c_) if y.get("k") == "DeclRefExpr" and (y.get("ref") or {}).get("dk") == "Var" and any(v.get("k") == "Var" and v.get("did") == y["ref"].get("did") and fi.order[id(v)] > fi.order[id(rm)] for v in walk(fn["body"]))]
+                late += [y for c_, _p in fi.guards(loop) if id(c_) not in rm_g and fi.order.get(id(c_), 0) > fi.order[id(rm)] for y in walk(c_) if is_call(y) and y.get("callee", "").split("::")[-1] in ("size", "front", "back", "empty")]
+                txt = render(e).replace("this->", "").replace(" ", "")
+                txt = re.sub(r"\((unsigned|unsignedint|unsignedlong|size_t|std::size_t|int|long)\)", "", txt)
+                while txt.startswith("(") and _closes_at_end(txt):
+                    txt = txt[1:-1]
+                m = re.match(r"^\(*%s\.front\(\)\)*(>=|>|==|<=|<)(.+)$" % re.escape(queue), txt)
+                bound = None
+                if m and not late and sorted_before:
+                    rhs = m.group(2).replace(lst + ".size()", "N").replace(queue + ".size()", "K")
+                    if re.fullmatch(r"[NK0-9+\-()]+", rhs):
+                        try:
+                            N, K = sp.symbols("N K", integer=True)
+                            val = sp.sympify(rhs, locals={"N": N, "K": K})
+                            op = m.group(1)
+                            # the renumbering is skipped when the fact does NOT hold
+                            if not pol and op in (">=", ">", "=="):
+                                bound = sp.simplify(val + (1 if op == ">" else 0) - (N - K))
+                            elif pol and op in ("<", "<="):
+                                bound = sp.simplify(val + (1 if op == "<=" else 0) - (N - K))
+                        except (sp.SympifyError, TypeError, SyntaxError):
+                            bound = None
+                if bound is not None and bound.is_number and bound >= 0:
+                    rep.ok("C01.rebase", prog, fn, site, "%s is skipped only when the lowest free slot is >= size - #free (all free slots trail: nothing moves)" % what)
+                elif bound is not None and bound.is_number and bound < 0:
+                    rep.violation("C01.rebase", prog, fn, site, "%s skipped while an element moves" % what,
+                                  "cell::rebase skips %s when '%s' %s, i.e. when the lowest free slot is >= size - #free %s: that admits a free slot below the new size of %s, so remove_index moves a live element to a lower position while its id (and the ids stored in the faces and edges) keep the old value - e.g. one free slot that is the last but one: the last element moves into it and keeps its old id, which now lies outside the list" % (what, short(e, 90), "does not hold" if pol else "holds", ("- %d" % -int(bound)), lst))
+                else:
+                    raise AnalysisBroken("cell::rebase: %s runs under the additional condition '%s' that remove_index(%s, ...) does not run under - whether every skipped compaction leaves all elements in place is not decided" % (what, short(e, 100), lst))
+
+
 def rebase(rep, prog):
     fn = prog.fn("cell::rebase")
     fi = prog.index(fn)
@@ -431,6 +505,7 @@ def rebase(rep, prog):
             rep.ok("C01.rebase", prog, fn, None, "after compacting %s every element gets id = its new position" % lst)
         else:
             rep.violation("C01.rebase", prog, fn, None, "%s not renumbered after compaction" % lst, "cell::rebase must set the id of every remaining element of %s to its new index after remove_index" % lst)
+    _relabel_on_every_compaction(rep, prog, fn, fi)
     upd = [n for n in walk(fn["body"]) if n.get("k") == "CXXDependentScopeMemberExpr" and n.get("member") == "update_node_ids"] + [n for n in walk(fn["body"]) if is_call(n) and n.get("callee") == "face::update_node_ids"]
     if upd:
         rep.ok("C01.rebase", prog, fn, upd[0], "faces remap their node ids through the old->new correspondence")
